@@ -804,6 +804,11 @@ func c16(c *core.Ctx) {
 		loopCaptureCheck(c, litHosts)
 		c.EndRule()
 	}
+
+	// ---------------------------------------------------------------- R8 (shared)
+	// "each APPLICABLE interceptor": a stream interceptor sees streaming methods only and a unary one unary methods
+	// only — each in-process entry point looks the method up in the table of its own kind (C12/R2)
+	c.Borrow("C12", map[string]string{"R2": "R8"}, c12)
 }
 
 func sameFieldLoad(a, b ssa.Value) bool {
